@@ -5,7 +5,7 @@ import subprocess, sys, os, shutil, re
 ROOT='/scratch/agentP16'
 TMP=ROOT+'/tmp-repo'
 ENV=dict(os.environ, GOFLAGS='-mod=mod', GOPROXY='off', GOSUMDB='off', GOTOOLCHAIN='local')
-CMS='count_min_sketch.go'; BASE='base_count_min_sketch.go'
+CMS='count_min_sketch.go'; BASE='base_count_min_sketch.go'; HLLF='hyperloglog.go'
 UPD_LOOP='''	for r, c := range cms.getPositions(data) {
 		cms.matrix[r][c] += count
 	}
@@ -218,17 +218,32 @@ cases = {
 }
 
 // WriteTo writes''')],
+ # --- HyperLogLog (target Gostatix.Props.LoopTieHLL)
+ 'X1-hll-update-plain-store': [(HLLF, 'h.registers[registerIndex] = uint8(util.Max(uint(h.registers[registerIndex]), uint(uint8(count))))', 'h.registers[registerIndex] = uint8(count)')],
+ 'X2-hll-merge-len-minus-1': [(HLLF, '	for i := range other {', '	for i := 0; i < len(other)-1; i++ {')],
+ 'X3-hll-merge-min': [(HLLF, '		h.registers[i] = uint8(util.Max(uint(h.registers[i]), uint(other[i])))', '''		if other[i] < h.registers[i] {
+			h.registers[i] = other[i]
+		}''')],
+ 'X4-hll-update-index-plus-1': [(HLLF, 'h.registers[registerIndex] = uint8(util.Max(uint(h.registers[registerIndex]),', 'h.registers[registerIndex+1] = uint8(util.Max(uint(h.registers[registerIndex]),')],
+ 'X5-hll-merge-no-check': [(HLLF, '	if h.numRegisters != g.numRegisters {', '	if h.numRegisters > g.numRegisters {')],
+ 'Y1-hll-merge-index-loop': [(HLLF, '	for i := range other {', '	for i := 0; i < len(other); i++ {')],
+ 'Y2-hll-merge-numRegisters-loop': [(HLLF, '	for i := range other {', '	for i := uint64(0); i < h.numRegisters; i++ {')],
+ 'Y3-hll-merge-range-value': [(HLLF, '''	for i := range other {
+		h.registers[i] = uint8(util.Max(uint(h.registers[i]), uint(other[i])))''', '''	for k, v := range other {
+		h.registers[k] = uint8(util.Max(uint(h.registers[k]), uint(v)))''')],
+ 'Y4-hll-update-locals': [(HLLF, '	h.registers[registerIndex] = uint8(util.Max(uint(h.registers[registerIndex]), uint(uint8(count))))', '''	old := uint(h.registers[registerIndex])
+	h.registers[registerIndex] = uint8(util.Max(old, uint(uint8(count))))''')],
 }
 
 def run(name):
-    for f in (CMS, BASE):
+    for f in (CMS, BASE, HLLF):
         shutil.copy('/repo/'+f, TMP+'/'+f)
     for f, old, new in cases[name]:
         s = open(TMP+'/'+f).read()
         if old not in s:
             print(name, 'PATCH DOES NOT APPLY', repr(old[:40])); return
         open(TMP+'/'+f,'w').write(s.replace(old, new, 1))
-    r = subprocess.run(['gofmt','-l',TMP+'/'+CMS,TMP+'/'+BASE],capture_output=True,text=True)
+    r = subprocess.run(['gofmt','-l',TMP+'/'+CMS,TMP+'/'+BASE,TMP+'/'+HLLF],capture_output=True,text=True)
     if r.returncode != 0 or r.stderr:
         print(name, 'DOES NOT PARSE', r.stderr); return
     subprocess.run([ROOT+'/extract/gsextract','-repo',TMP,'-out',ROOT+'/lean/Gostatix/Generated'],check=True,env=ENV)
@@ -236,7 +251,8 @@ def run(name):
     uns = re.findall(r'^-- (\w+) \(.*?UNSUPPORTED, no definition emitted: (.*)$', gen, re.M)
     ar = open(ROOT+'/lean/Gostatix/Generated/Arith.lean').read()
     aun = re.findall(r'^-- (\w+) \(.*?UNSUPPORTED, no definition emitted: (.*)$', ar, re.M)
-    r = subprocess.run(['lake','build','Gostatix.Props.LoopTieCMS'],cwd=ROOT+'/lean',capture_output=True,text=True)
+    target = 'Gostatix.Props.LoopTieHLL' if name[0] in 'XY' else 'Gostatix.Props.LoopTieCMS'
+    r = subprocess.run(['lake','build',target],cwd=ROOT+'/lean',capture_output=True,text=True)
     out = r.stdout + r.stderr
     errs = re.findall(r'^error: (Gostatix/\S+?:\d+):\d+: (.*)$', out, re.M)
     status = 'GREEN' if r.returncode == 0 else 'FAILS'
